@@ -14,6 +14,8 @@ Untouched(s, t) ==
 \* has a position been closed in this run ?
 NextCbs(ev, t) == IF ev.ev = "close" /\ ev.res = "ok" THEN TRUE ELSE cbs
 
+Ident(ev) == IF ev.args.lbl = "" THEN [k |-> "id", id |-> ev.args.id, label |-> ""]
+             ELSE [k |-> "label", id |-> -1, label |-> ev.args.lbl]
 EvChecks(ev, t) ==
   LET u == ev.actor IN
   (IF ev.res # "ok" THEN Unchanged(ev)
@@ -22,9 +24,10 @@ EvChecks(ev, t) ==
           [] ev.ev = "close" -> CloseChecks(st, t, u, ev.args.dur)
           [] ev.ev = "withdraw" -> WithdrawChecks(st, t, u)
           [] ev.ev = "openflow" -> OpenFlowChecks(st, t, u, meta.fee_asset, meta.fee)
-          [] ev.ev = "expandflow" -> ExpandFlowChecks(st, t, ev.args.id)
-          [] ev.ev = "closeflow" -> CloseFlowChecks(st, t, u, ev.args.id, ev.args.by = "owner")
+          [] ev.ev = "expandflow" -> ExpandFlowChecks(st, t, Ident(ev))
+          [] ev.ev = "closeflow" -> CloseFlowChecks(st, t, u, Ident(ev), ev.args.by = "owner")
           [] ev.ev = "claim" -> ClaimChecks(st, t, u, ev.pre.rewards.r, ev.pre.rewards.res = "ok", lastClaim[u])
+                                \o EmissionChecks(st, t, u, ev.out.pays, ev.out.flows, lastClaim[u])
           [] ev.ev \in {"snapshot", "newepoch"} -> Untouched(st, t)
           [] OTHER -> << <<"TRACE.unknown-event", FALSE>> >>)
   \o StateChecksC11(t) \o StateChecksC12(t) \o StateChecksC13(t) \o SharesChecks(t, NextCbs(ev, t))
